@@ -144,17 +144,25 @@ func runTask(t task) (res result) {
 	return
 }
 
-// probeChild: executes the tasks of a job file concurrently; after the watchdog time whatever has not
-// returned is reported with done=false; the process then exits (which ends the spinning goroutines).
-func probeChild(jobFile string, watchdog time.Duration) {
-	raw, err := os.ReadFile(jobFile)
+type jobFile struct {
+	Control string `json:"control"` // a small healthy database: the watchdog's yardstick
+	Tasks   []task `json:"tasks"`
+}
+
+// probeChild: executes the tasks of a job file concurrently under the watchdog: a task is reported
+// with done=false if it has not returned after 2 s AND after 300 complete Open+Read cycles of a healthy
+// control database performed by a goroutine of the same process since the tasks were started (so that an
+// overloaded machine is not mistaken for a hang).  The process then exits, which ends spinning goroutines.
+func probeChild(jobPath string, watchdog time.Duration) {
+	raw, err := os.ReadFile(jobPath)
 	if err != nil {
 		rec.Fatal("probe: %v", err)
 	}
-	var tasks []task
-	if err := json.Unmarshal(raw, &tasks); err != nil {
+	var jf jobFile
+	if err := json.Unmarshal(raw, &jf); err != nil {
 		rec.Fatal("probe: %v", err)
 	}
+	tasks := jf.Tasks
 	results := make([]result, len(tasks))
 	var mu sync.Mutex
 	var wg sync.WaitGroup
@@ -171,14 +179,33 @@ func probeChild(jobFile string, watchdog time.Duration) {
 	}
 	done := make(chan struct{})
 	go func() { wg.Wait(); close(done) }()
+	control := make(chan struct{})
+	go func() {
+		ok := 0
+		for ok < 300 {
+			r := runTask(task{File: jf.Control, Read: true, Key: string(keyOf(1))})
+			if r.Res != "ok" {
+				rec.Fatal("probe: control database unreadable: %+v", r)
+			}
+			ok++
+		}
+		close(control)
+	}()
+	hard := time.After(120 * time.Second)
+	timer := time.After(watchdog)
 	select {
 	case <-done:
-	case <-time.After(watchdog):
+	case <-timer:
+		select {
+		case <-done:
+		case <-control:
+		case <-hard:
+		}
 	}
 	mu.Lock()
 	out, _ := json.Marshal(results)
 	mu.Unlock()
-	if err := os.WriteFile(jobFile+".out", out, 0o644); err != nil {
+	if err := os.WriteFile(jobPath+".out", out, 0o644); err != nil {
 		rec.Fatal("probe: %v", err)
 	}
 	os.Exit(0)
@@ -188,7 +215,7 @@ func probeChild(jobFile string, watchdog time.Duration) {
 func probe(scratch string, tasks []task) map[int]result {
 	// phase 1: everything, big batches.  phase 2: whatever did not return gets a second chance in small
 	// batches (few spinning goroutines per child), so that a slow machine is not mistaken for a hang.
-	out := probeOnce(scratch, "p1", tasks, 200)
+	out := probeOnce(scratch, "p1", tasks, 200, 5)
 	var again []task
 	for _, t := range tasks {
 		if !out[t.ID].Done {
@@ -196,15 +223,34 @@ func probe(scratch string, tasks []task) map[int]result {
 		}
 	}
 	if len(again) > 0 {
-		for id, r := range probeOnce(scratch, "p2", again, 60) {
+		for id, r := range probeOnce(scratch, "p2", again, 60, 4) {
 			out[id] = r
 		}
 	}
 	return out
 }
 
-func probeOnce(scratch, tag string, tasks []task, batch int) map[int]result {
-	const parallel = 3
+// controlDB builds (once) a one-record database used as the watchdog's yardstick.
+func controlDB(scratch string) string {
+	file := filepath.Join(scratch, "control", "db")
+	if fileSize(file+".idx") > 0 {
+		return file
+	}
+	must := func(err error) {
+		if err != nil {
+			rec.Fatal("blockdb: control database: %v", err)
+		}
+	}
+	must(os.MkdirAll(filepath.Dir(file), 0o755))
+	db, err := bdb.NewBlockDB(file, keyLen, false)
+	must(err)
+	must(db.Create())
+	must(db.WriteData(&Rec{ID: string(keyOf(1)), Ver: 1, Payload: []byte("control")}))
+	must(db.Save())
+	return file
+}
+
+func probeOnce(scratch, tag string, tasks []task, batch, parallel int) map[int]result {
 	type job struct {
 		file  string
 		tasks []task
@@ -217,7 +263,7 @@ func probeOnce(scratch, tag string, tasks []task, batch int) map[int]result {
 			j = len(tasks)
 		}
 		f := filepath.Join(scratch, fmt.Sprintf("job-%s-%d.json", tag, len(jobs)))
-		raw, _ := json.Marshal(tasks[i:j])
+		raw, _ := json.Marshal(jobFile{Control: controlDB(scratch), Tasks: tasks[i:j]})
 		if err := os.WriteFile(f, raw, 0o644); err != nil {
 			rec.Fatal("probe: %v", err)
 		}
@@ -242,7 +288,7 @@ func probeOnce(scratch, tag string, tasks []task, batch int) map[int]result {
 			go func() { ch <- cmd.Wait() }()
 			select {
 			case <-ch:
-			case <-time.After(30 * time.Second): // the child's own watchdog is 2 s; this is for a wedged child
+			case <-time.After(150 * time.Second): // the child ends by itself; this is for a wedged child
 				_ = cmd.Process.Kill()
 				<-ch
 			}
